@@ -3,7 +3,7 @@
     schema, column chunks, page headers, checksums, level and value
     encodings.  It recomputes what the footer claims (offsets, sizes, counts)
     from the bytes and returns the decoded column streams.  Extracted, it is the
-    independent decoder of C02.  Compressed pages: UNCOMPRESSED and SNAPPY. *)
+    independent decoder of C02.  Compressed pages: UNCOMPRESSED and SNAPPY decoded here, the other codecs by the decompressor [ext] the decoder is given (see [decompress]). *)
 From Coq Require Import List NArith ZArith Bool Arith.
 From Coq Require String.
 Import String.StringSyntax.
@@ -135,10 +135,22 @@ Record page := {
 
 Definition bytes_of_z (k : nat) (width : N) (z : Z) : bytes := to_le k (wrapZ width z).
 
-Definition decompress (codec : Z) (b : bytes) : option bytes :=
+(* Compression codecs.  UNCOMPRESSED (0) and SNAPPY (1) are decoded here.  The other codecs
+   of the format (GZIP 2, BROTLI 4, ZSTD 6, LZ4_RAW 7, ...) are decoded by [ext], a
+   decompressor supplied from outside the model: [ext codec b] is [Some d] when [b] is a
+   complete, well-formed compressed stream of that codec whose content is [d], and [None]
+   otherwise (in particular for a section of zero bytes: no codec other than UNCOMPRESSED has an empty
+   encoding of the empty string, a gzip member, a zstd frame, a brotli stream, an LZ4 block
+   and a snappy block all hold at least one byte).  Every definition and theorem below holds
+   for every [ext]; the run instantiates it with the reference implementations of the codecs
+   (harness/c02/refcodec), [no_ext] is the decoder that knows codecs 0 and 1 only. *)
+Definition ext_fn := Z -> bytes -> option bytes.
+Definition no_ext : ext_fn := fun _ _ => None.
+
+Definition decompress (ext : ext_fn) (codec : Z) (b : bytes) : option bytes :=
   if (codec =? 0)%Z then Some b
   else if (codec =? 1)%Z then snappy_decode b
-  else None.
+  else ext codec b.
 
 Definition split_fixed (k n : nat) (b : bytes) : option (list bytes) :=
   match sub b 0 (k * n) with
@@ -260,7 +272,7 @@ Definition decode_header (rest : bytes) : option (tval * nat * bytes) :=
   end.
 
 (* one page at [off]; [dict] = decoded dictionary so far *)
-Definition decode_page (rest : bytes) (lf : leaf) (codec : Z) (dict : list bytes) (off : N)
+Definition decode_page (ext : ext_fn) (rest : bytes) (lf : leaf) (codec : Z) (dict : list bytes) (off : N)
   : option page :=
   match decode_header rest with
   | None => None
@@ -283,7 +295,7 @@ Definition decode_page (rest : bytes) (lf : leaf) (codec : Z) (dict : list bytes
                p_rep := rep; p_def := def; p_values := values |} in
           if (ptype =? 2)%Z then
             (* dictionary page: PLAIN values *)
-            match get 7 h, decompress codec body with
+            match get 7 h, decompress ext codec body with
             | Some dh, Some data =>
                 let n := nat_of_field 1 dh in
                 match decode_values (l_type lf) (l_tlen lf) 0 [] n data with
@@ -293,7 +305,7 @@ Definition decode_page (rest : bytes) (lf : leaf) (codec : Z) (dict : list bytes
             | _, _ => None
             end
           else if (ptype =? 0)%Z then
-            match get 5 h, decompress codec body with
+            match get 5 h, decompress ext codec body with
             | Some dh, Some data =>
                 let n := nat_of_field 1 dh in
                 let enc := zdef (get_int 2 dh) 0 in
@@ -328,7 +340,7 @@ Definition decode_page (rest : bytes) (lf : leaf) (codec : Z) (dict : list bytes
                     match levels_v2 (l_maxd lf) n dlen b1 with
                     | None => None
                     | Some (def, b2) =>
-                        match (if compressed then decompress codec b2 else Some b2) with
+                        match (if compressed then decompress ext codec b2 else Some b2) with
                         | None => None
                         | Some data =>
                             let nn := if (l_maxd lf =? 0)%nat then n else count_eq (N.of_nat (l_maxd lf)) def in
@@ -346,7 +358,7 @@ Definition decode_page (rest : bytes) (lf : leaf) (codec : Z) (dict : list bytes
   end.
 
 (* all pages of a chunk: from [off], until [stop] *)
-Fixpoint decode_pages (fuel : nat) (rest : bytes) (lf : leaf) (codec : Z) (dict : list bytes)
+Fixpoint decode_pages (ext : ext_fn) (fuel : nat) (rest : bytes) (lf : leaf) (codec : Z) (dict : list bytes)
          (off : N) : option (list page) :=
   match fuel with
   | O => None
@@ -354,12 +366,12 @@ Fixpoint decode_pages (fuel : nat) (rest : bytes) (lf : leaf) (codec : Z) (dict 
       match rest with
       | [] => Some []
       | _ =>
-        match decode_page rest lf codec dict off with
+        match decode_page ext rest lf codec dict off with
         | None => None
         | Some p =>
             let dict' := if (p_type p =? 2)%Z then p_values p else dict in
             let adv := (p_hlen p + p_comp p)%nat in
-            match decode_pages f (skipn adv rest) lf codec dict' (off + N.of_nat adv) with
+            match decode_pages ext f (skipn adv rest) lf codec dict' (off + N.of_nat adv) with
             | Some ps => Some (p :: ps)
             | None => None
             end
@@ -382,7 +394,7 @@ Definition chunk_start (md : tval) : N :=
   let dict := n_of_field 11 md in
   if (0 <? dict) && (dict <? dpo) then dict else dpo.
 
-Definition decode_chunk (file : fbytes) (lf : leaf) (cc : tval) : option chunk :=
+Definition decode_chunk (ext : ext_fn) (file : fbytes) (lf : leaf) (cc : tval) : option chunk :=
   match get 3 cc with
   | None => None
   | Some md =>
@@ -392,18 +404,18 @@ Definition decode_chunk (file : fbytes) (lf : leaf) (cc : tval) : option chunk :
       match fsub file start total with
       | None => None
       | Some data =>
-          match decode_pages (S total) data lf codec [] start with
+          match decode_pages ext (S total) data lf codec [] start with
           | Some ps => Some {| c_leaf := lf; c_meta := md; c_chunk := cc; c_start := start; c_pages := ps |}
           | None => None
           end
       end
   end.
 
-Fixpoint decode_chunks (file : fbytes) (ls : list leaf) (ccs : list tval) : option (list chunk) :=
+Fixpoint decode_chunks (ext : ext_fn) (file : fbytes) (ls : list leaf) (ccs : list tval) : option (list chunk) :=
   match ls, ccs with
   | [], [] => Some []
   | lf :: ls', cc :: ccs' =>
-      match decode_chunk file lf cc, decode_chunks file ls' ccs' with
+      match decode_chunk ext file lf cc, decode_chunks ext file ls' ccs' with
       | Some c, Some cs => Some (c :: cs)
       | _, _ => None
       end
@@ -436,21 +448,21 @@ Definition footer_of (file : fbytes) : option (tval * N) :=
     | _, _, _ => None
     end.
 
-Fixpoint decode_groups (file : fbytes) (ls : list leaf) (gs : list tval) : option (list row_group) :=
+Fixpoint decode_groups (ext : ext_fn) (file : fbytes) (ls : list leaf) (gs : list tval) : option (list row_group) :=
   match gs with
   | [] => Some []
   | g :: gs' =>
       match get_list 1 g with
       | None => None
       | Some ccs =>
-          match decode_chunks file ls ccs, decode_groups file ls gs' with
+          match decode_chunks ext file ls ccs, decode_groups ext file ls gs' with
           | Some cs, Some rest => Some ({| g_meta := g; g_chunks := cs |} :: rest)
           | _, _ => None
           end
       end
   end.
 
-Definition parse (file : fbytes) : option pfile :=
+Definition parse (ext : ext_fn) (file : fbytes) : option pfile :=
   match footer_of file with
   | None => None
   | Some (md, fstart) =>
@@ -461,7 +473,7 @@ Definition parse (file : fbytes) : option pfile :=
           | None => None
           | Some ls =>
               let gs := match get_list 4 md with Some l => l | None => [] end in
-              match decode_groups file ls gs with
+              match decode_groups ext file ls gs with
               | Some groups => Some {| f_meta := md; f_leaves := ls; f_groups := groups; f_footer_start := fstart |}
               | None => None
               end
@@ -595,9 +607,53 @@ Definition check_indexes (file : fbytes) (f : pfile) : list string :=
     | None => if (nat_of_field 5 (c_chunk c) =? 0)%nat then [] else ["offset_index_unreadable"]
     end) (g_chunks g))) (f_groups f)).
 
-Definition verify (bytes_of_file : bytes) : option (pfile * list string) :=
+(** sorting_columns of a row group (RowGroup field 4; SortingColumn = 1: column_idx, 2:
+    descending, 3: nulls_first): "if set, specifies a sort ordering of the rows in this
+    row group".  Every column_idx must name a column chunk of the row group.  What the
+    declaration says about the rows is decided here as far as the levels alone decide it:
+    the placement of the nulls of the FIRST sorting column, when that column is not
+    repeated (one value per row): its nulls (definition level below the maximum) all come
+    before its non-null values when nulls_first is set, all after them otherwise.  (The
+    later sorting columns are ordered only inside runs of equal earlier keys, and the order
+    of the values themselves is the order of the logical type: both are C05's.) *)
+Fixpoint drop_while {A} (f : A -> bool) (l : list A) : list A :=
+  match l with
+  | [] => []
+  | x :: r => if f x then drop_while f r else l
+  end.
+
+Definition nulls_placed (nulls_first : bool) (maxd : N) (defs : list N) : bool :=
+  let isnull := fun d => (d <? maxd)%N in
+  if nulls_first then forallb (fun d => negb (isnull d)) (drop_while isnull defs)
+  else forallb isnull (drop_while (fun d => negb (isnull d)) defs).
+
+Definition check_sorting_group (g : row_group) : list string :=
+  match get_list 4 (g_meta g) with
+  | Some scs =>
+      check (forallb (fun sc => match get_int 1 sc with
+                                | Some i => (0 <=? i)%Z && (Z.to_nat i <? length (g_chunks g))%nat
+                                | None => false end) scs) "sorting_column_idx"
+      ++ match scs with
+         | sc :: _ =>
+             match nth_error (g_chunks g) (nat_of_field 1 sc) with
+             | Some c =>
+                 if (l_maxr (c_leaf c) =? 0)%nat then
+                   check (nulls_placed (match get_bool 3 sc with Some b => b | None => false end)
+                                       (N.of_nat (l_maxd (c_leaf c))) (concat (map p_def (data_pages c))))
+                         "sorting_nulls_placement"
+                 else []
+             | None => []
+             end
+         | [] => []
+         end
+  | None => []
+  end.
+
+Definition check_sorting (f : pfile) : list string := concat (map check_sorting_group (f_groups f)).
+
+Definition verify (ext : ext_fn) (bytes_of_file : bytes) : option (pfile * list string) :=
   let file := mk_fbytes bytes_of_file in
-  match parse file with
-  | Some f => Some (f, check_file f ++ check_indexes file f)
+  match parse ext file with
+  | Some f => Some (f, check_file f ++ check_indexes file f ++ check_sorting f)
   | None => None
   end.
